@@ -46,6 +46,11 @@ def gen_crc():
             raise ExtractError(f'fn {name} not found')
         return re.sub(r'\s+', ' ', mm.group(1)).strip()
     fps = {n: fn_body(n) for n in ['get_crc16', 'update_crc16', 'update_slow', 'update_crc32']}
+    # get_crc32: the loop skeleton with the XOR chain (already parsed into crc32Chain) abstracted away
+    loop = re.sub(r'\s+', ' ', body).strip()
+    loop = re.sub(r'result = CRC32_TABLE\[.*?;', 'result = CHAIN;', loop, count=1)
+    loop = re.sub(r'^let mut result = 0x[0-9A-Fa-f_]+; let mut buf = buf; ', '', loop)
+    fps['get_crc32_loop'] = loop
     out = [HEADER, 'namespace IcyVerif.Gen.Crc\n']
     out.append(lean_list('t16', t16))
     for k in range(16):
